@@ -17,8 +17,8 @@ This private submodule is *not* intended for importation by downstream callers.
 from ast import PyCF_ONLY_AST
 from beartype.claw._ast.clawastmain import BeartypeNodeTransformer
 from beartype.claw._importlib.clawimpcache import (  # type: ignore[attr-defined]
-    cache_from_source_beartype,
     cache_from_source_original,
+    make_cache_from_source_beartype,
 )
 from beartype.roar import BeartypeClawImportAstException
 from beartype._conf.confmain import BeartypeConf
@@ -213,8 +213,8 @@ class BeartypeSourceFileLoader(SourceFileLoader):
 
           #. Temporarily monkey-patches (i.e., replaces) the
              private :func:`importlib._bootstrap_external.cache_from_source`
-             function with our beartype-specific
-             :func:`.cache_from_source_beartype` variant.
+             function with the beartype-specific variant created by our
+             :func:`.make_cache_from_source_beartype` factory.
           #. Calls the superclass :meth:`.SourceLoader.get_code` method, which:
 
              #. Calls our override of the lower-level superclass
@@ -247,9 +247,11 @@ class BeartypeSourceFileLoader(SourceFileLoader):
           including the name and version of the active Python interpreter).
 
         This monkey-patch suffixes ``{optimization_markers}`` by
-        :data:`.OPTIMIZATION_MARKER_BEARTYPE`, which additionally uniquifies the
-        filename of this bytecode file to the abstract syntax tree (AST)
-        transformation applied by this version of :mod:`beartype`. Why? Because
+        :data:`.OPTIMIZATION_MARKER_BEARTYPE` and an encoding of the
+        configuration options deciding that transformation, which additionally
+        uniquifies the filename of this bytecode file to the abstract syntax
+        tree (AST) transformation applied by this version of :mod:`beartype`
+        under this configuration. Why? Because
         external callers can trivially enable and disable that transformation
         for any module by either calling or not calling the
         :func:`beartype.claw.beartype_package` function with the name of a
@@ -488,7 +490,8 @@ class BeartypeSourceFileLoader(SourceFileLoader):
         #
         # Note that @agronholm (Alex Grönholm) claims that "the import lock
         # should make this monkey patch safe." We're trusting you here, man!
-        _bootstrap_external.cache_from_source = cache_from_source_beartype
+        _bootstrap_external.cache_from_source = (
+            make_cache_from_source_beartype(conf))
 
         # Attempt to defer to the superclass method.
         try:
